@@ -97,6 +97,18 @@ example : Relayout ['a', '.', 'b', '(', '"', 'x', ' ', 'y', '"', ')']
   exact Relayout.gap [] ['\n'] (s := []) (s' := []) (by decide) (by decide) (by decide)
     (by decide) (by decide) (by decide) (by decide) Relayout.nil
 
+open Cpf.Lemmas.LexLayoutQ in
+/-- the relation is decided by `relayoutB` (sound): what the correspondence check runs on every re-layout it tests -/
+theorem C14_layout_decided (f : Nat) (s s' : List Char) (h : relayoutB f s s' = true) :
+    lex lexRules s = lex lexRules s' :=
+  C14_lex_layout s s' (relayoutB_sound f s s' h)
+
+open Cpf.Lemmas.LexLayoutQ in
+/-- Non-vacuity on a whole query: the tight text and a re-wrapped, re-indented one. -/
+example : relayoutB 100 "FROM a AS b WHERE b.x()==\"q r\"&&b.y() in [\"z\"] SELECT b".toList
+    "FROM a\tAS b\n  WHERE b . x ( )  == \"q r\" &&\r\n b.y() in [ \"z\" ]\nSELECT b\n".toList = true := by
+  decide
+
 /-- The condition text recorded by the listener is a function of the tokens of the WHERE sub-tree only. -/
 theorem C14_conditionText_tokens (t : Token) :
     conditionText (.leaf t) = (if t.text = "||" ∨ t.text = "&&" then " " ++ t.text ++ " " else t.text) := by
